@@ -12,25 +12,40 @@ Require Import LD.Isolation.
 """
 
 
-def make_example(i):
-    return {'id': i, 'ver': [0], 'deep': {'l': [{'x': [i, 0]}]}}
+def make_example(i, shape='dict'):
+    """nested example; the top-level container is a dict, a tuple (immutable only at the top) or a list"""
+    if shape == 'dict':
+        return {'id': i, 'ver': [0], 'deep': {'l': [{'x': [i, 0]}]}}
+    body = [i, [0], {'l': [{'x': [i, 0]}]}]
+    return tuple(body) if shape == 'tuple' else body
 
 
 def content(ex):
-    """the model's content of an example: its version marker (all three nested markers must agree)"""
-    a, b = ex['ver'][0], ex['deep']['l'][0]['x'][1]
+    """the model's content of an example: its version marker (all nested markers must agree)"""
+    if isinstance(ex, dict):
+        a, b = ex['ver'][0], ex['deep']['l'][0]['x'][1]
+    else:
+        a, b = ex[1][0], ex[2]['l'][0]['x'][1]
     return a if a == b else -1000 - a
 
 
 def mutate(ex, k):
-    ex['ver'][0] = k
-    ex['deep']['l'][0]['x'][1] = k
-    ex['deep']['l'].append('junk')
-    ex['new'] = k
+    if isinstance(ex, dict):
+        ex['ver'][0] = k
+        ex['deep']['l'][0]['x'][1] = k
+        ex['deep']['l'].append('junk')
+        ex['new'] = k
+    else:
+        ex[1][0] = k
+        ex[2]['l'][0]['x'][1] = k
+        ex[2]['l'].append('junk')
+        ex[2]['new'] = k
+        if isinstance(ex, list):
+            ex.append(k)
 
 
-def build(ld, kind, n, keyed, tmp):
-    originals = [make_example(i) for i in range(n)]
+def build(ld, kind, n, keyed, tmp, shape='dict'):
+    originals = [make_example(i, shape) for i in range(n)]
     keys = [gen_a.KEYS[i] for i in range(n)]
     container = dict(zip(keys, originals)) if keyed else list(originals)
     with warnings.catch_warnings():
@@ -59,8 +74,8 @@ def build(ld, kind, n, keyed, tmp):
     return ds, originals, keys
 
 
-def run_history(ld, kind, n, keyed, ops, tmp):
-    ds, originals, keys = build(ld, kind, n, keyed, tmp)
+def run_history(ld, kind, n, keyed, ops, tmp, shape='dict'):
+    ds, originals, keys = build(ld, kind, n, keyed, tmp, shape)
     handles = []
     outs = []
     cp = None
@@ -194,13 +209,14 @@ def run(tier):
                 ops.append(('mut', r.randrange(nh), r.randint(1, 50)))
         wd = os.path.join(tmp, f'h{ci}')
         os.makedirs(wd)
-        outs = run_history(ld, kind, n, keyed, ops, wd)
+        shape = r.choice(['dict', 'dict', 'tuple', 'list'])
+        outs = run_history(ld, kind, n, keyed, ops, wd, shape)
         shutil.rmtree(wd, ignore_errors=True)
         # direct predicate: every read returns the pristine content (version 0)
         for op, o in zip(ops, outs):
             if op[0] == 'read' and o != ('val', 0):
-                failures.append(dict(kind='history', summary=f'{kind} storage ({"dict" if keyed else "list"}, n={n}): after {ops} a read by path {op[1]!r} of example {op[2]} returned content {o}',
-                                     config=dict(kind=kind, n=n, keyed=keyed, ops=[list(x) for x in ops])))
+                failures.append(dict(kind='history', summary=f'{kind} storage ({"dict" if keyed else "list"}-backed, {shape} examples, n={n}): after {ops} a read by path {op[1]!r} of example {op[2]} returned content {o}',
+                                     config=dict(kind=kind, n=n, keyed=keyed, shape=shape, ops=[list(x) for x in ops])))
                 break
         if kind.endswith('_shared'):
             lcases.append(coq_lcase(n, ops, outs))
@@ -243,7 +259,7 @@ def replay(payload):
     ld = common.import_impl()
     c = payload['config']
     tmp = tempfile.mkdtemp(prefix='c09r_')
-    outs = run_history(ld, c['kind'], c['n'], c['keyed'], [tuple(o) for o in c['ops']], tmp)
+    outs = run_history(ld, c['kind'], c['n'], c['keyed'], [tuple(o) for o in c['ops']], tmp, c.get('shape', 'dict'))
     shutil.rmtree(tmp, ignore_errors=True)
     print('  outs', outs)
     return any(op[0] == 'read' and o != ('val', 0) for op, o in zip(c['ops'], outs))
